@@ -738,7 +738,7 @@ def history_obligations(chk, tier, pool):
         s.add(hyp)
         s.add(z3.Not(goal))
         t1 = time.time()
-        r = s.check()
+        r = ckit.check_with_deadline(s, timeout)
         results[name] = (str(r), time.time() - t1, s.model() if r == z3.sat else None)
         return r
 
@@ -791,7 +791,7 @@ def history_obligations(chk, tier, pool):
     st_c = z3.Store(st, 3, COMPLETED)
     # after create(3 again) + complete(3) + suggest with m = 3: len(inc) == 3 == m -> nothing new, yet the new identity 4 is completed and undelivered
     s.add(z3.Not(z3.Implies(z3.And(ex_c[3], st_c[3] == COMPLETED), deliv[ident_c[3]])))
-    cti = s.check()
+    cti = ckit.check_with_deadline(s, 10000)
     f13 = chk.finding_for(name)
     res, raw = pool.get('history')
     det = {'counterexample_to_induction': str(cti), 'state': 'ids {1,2} exist, inc = {1,2,3} (3 = deleted max-id trial, delivered); create -> id 3 again, new identity',
@@ -883,7 +883,7 @@ def bounded_search(kind, entries, want, tier, extra_payload=None):
                     if name not in want or name in found or attempts.get(name, 0) >= 3 or time.time() - t0 > (40 if tier == 'quick' else 120):
                         continue          # budget: at most 3 native replays per obligation, bounded wall time
                     pre = [run.subset] if hasattr(run, 'subset') else []
-                    v, model, dt = E.discharge(run, f if not isinstance(f, bool) else z3.BoolVal(f), timeout_ms=3000, extra=pre)
+                    v, model, dt = ckit.discharge(run, f if not isinstance(f, bool) else z3.BoolVal(f), timeout_ms=3000, extra=pre)
                     if v != 'sat':
                         continue
                     attempts[name] = attempts.get(name, 0) + 1
